@@ -146,7 +146,8 @@ def run_with_filter(flt: Any, cfg: EnOptConfig, case: dict[str, Any], values: np
         w = cfg.objectives.weights
         sort = case.get("sort") or [0]
         if w.size > 1:
-            key = np.array([float(sum(Fraction(float(vals2[i, s])) * Fraction(float(w[s])) for s in sort)) for i in range(n)])
+            # (an objective with weight zero has no say in the ranking, whatever its values - also infinite ones)
+            key = np.array([float(sum(Fraction(float(vals2[i, s])) * Fraction(float(w[s])) for s in sort if w[s] != 0)) for i in range(n)])
         else:
             key = vals2[:, sort[0]]
         bad = badness("objective", key)
@@ -259,9 +260,20 @@ def hypothesis_shard(item: dict[str, Any]) -> Collector:
             if negative and draw(st.booleans()):  # the maximised objective is the only one that is ranked
                 case["sort"] = negative[:1]
             case["values"] = [[draw(value) for _ in range(k_n)] for _ in range(n)]
+            if draw(st.integers(0, 3)) == 0:
+                # a monitored objective (weight zero) among the ranked ones, with infinite values for some realizations
+                zero = draw(st.integers(0, k_n - 1))
+                case["obj_weights"][zero] = 0.0
+                if sum(case["obj_weights"]) <= 0:
+                    case["obj_weights"][(zero + 1) % k_n] = 3.0
+                case["sort"] = sorted({*case["sort"], zero, (zero + 1) % k_n})
+                for row in case["values"]:
+                    if draw(st.booleans()):
+                        row[zero] = draw(st.sampled_from([float("inf"), float("-inf")]))
+                case["infinite"] = True
         else:
             case["values"] = draw(st.lists(value, min_size=n, max_size=n))
-        case["e2e"] = draw(st.booleans())
+        case["e2e"] = draw(st.booleans()) and not case.get("infinite")
         if not case["e2e"] and draw(st.booleans()):  # the filter object is used for several evaluations
             case["history"] = []
             for _ in range(draw(st.integers(1, 2))):
